@@ -23,6 +23,10 @@ var c17Hosts = []string{
 	" 1.2.3.4", "1.2.3.4 ", "\t1.2.3.4", "1.2.3.4\n", "01.2.3.4", "1.2.3.04", "1.2.3", "1.2.3.4.5", "256.1.1.1", "1.2.3.-4", "1..3.4", "0x1.2.3.4", "1.2.3.4/24",
 	"example.i2p", "localhost", "a", "router.example.com", "xn--nxasmq6b.com", "1.2.3.4.example.com", "deadbeef", "cafe", "::g", "12345::1", "1:2:3:4:5:6:7:8:9", ":::", "1::2::3",
 	"", strings.Repeat("a", 255), strings.Repeat("1", 255),
+	// the longest spellings: fully zero-padded groups (39 bytes) and mixed notation with a dotted-quad tail (up to 45 bytes)
+	"2001:0db8:0000:0000:0000:0000:0000:0001", "0000:0000:0000:0000:0000:0000:0000:0000", "2001:0db8:0000:0000:0000:0000:192.168.100.100",
+	"0000:0000:0000:0000:0000:ffff:192.168.100.100", "0000:0000:0000:0000:0000:0000:255.255.255.255", "fe80:0000:0000:0000:0000:0000:0000:0001%eth0",
+	"2001:0db8:0000:0000:0000:0000:0000:00001", "1.2.3.4.", ".1.2.3.4", "::ffff:1.2.3", "::1.2.3.4", "1:2:3:4:5:6:1.2.3.4", "1:2:3:4:5:6:7:1.2.3.4",
 }
 
 var c17Ports = []string{
@@ -62,12 +66,19 @@ func c17Addr(opts map[string]string, viaParser bool) (*router_address.RouterAddr
 		m = append(m, refmodel.Pair{K: []byte(k), V: []byte(v)})
 	}
 	a := refmodel.RouterAddress{Cost: 5, Style: []byte("NTCP2"), Options: m.Sorted()}
+	if c17WireOrder != nil {
+		a.Options = c17WireOrder(a.Options)
+	}
 	v, rem, err := router_address.ReadRouterAddress(a.Bytes())
 	if err != nil || len(rem) != 0 {
 		return nil, fmt.Errorf("parse: %v rem %d", err, len(rem))
 	}
 	return &v, nil
 }
+
+// c17WireOrder, when set, rearranges the pairs of the reference encoding before it is parsed (the parser
+// accepts any order; only the constructors sort). Set around single-threaded passes only.
+var c17WireOrder func(refmodel.Mapping) refmodel.Mapping
 
 // c17One evaluates every accessor clause on one options map.
 func c17One(r *core.Run, opts map[string]string, viaParser bool, variant string) {
@@ -274,6 +285,53 @@ func runC17(r *core.Run) {
 		c17One(r, jobs[i].opts, false, jobs[i].variant)
 		c17One(r, jobs[i].opts, true, jobs[i].variant)
 	})
+	// large option sets (1..24 extra options around the well-known keys), through the constructor and through the
+	// parser in three wire orders: ascending, descending, and interleaved from both ends
+	{
+		orders := map[string]func(refmodel.Mapping) refmodel.Mapping{
+			"ascending": nil,
+			"descending": func(m refmodel.Mapping) refmodel.Mapping {
+				out := append(refmodel.Mapping(nil), m...)
+				for i, j := 0, len(out)-1; i < j; i, j = i+1, j-1 {
+					out[i], out[j] = out[j], out[i]
+				}
+				return out
+			},
+			"interleaved": func(m refmodel.Mapping) refmodel.Mapping {
+				var out refmodel.Mapping
+				for i, j := 0, len(m)-1; i <= j; i, j = i+1, j-1 {
+					out = append(out, m[j])
+					if i != j {
+						out = append(out, m[i])
+					}
+				}
+				return out
+			},
+		}
+		for _, on := range []string{"ascending", "descending", "interleaved"} {
+			c17WireOrder = orders[on]
+			for extra := 1; extra <= 24; extra++ {
+				o := map[string]string{"host": "10.1.2.3", "port": "4567", "caps": "4", "s": string(refmodel.Fill("sk", 32, 32)), "i": string(refmodel.Fill("sk", 16, 16))}
+				for k := 0; k < extra; k++ {
+					o[fmt.Sprintf("%c-opt%02d", 'a'+byte(k%26), k)] = fmt.Sprintf("v%d", k)
+				}
+				c17One(r, o, true, "many-options["+on+"]")
+				if on == "ascending" {
+					c17One(r, o, false, "many-options")
+				}
+				// static key / IV through the same lookup
+				if ra, err := c17Addr(o, true); err == nil && ra != nil {
+					if _, e := ra.StaticKey(); e != nil {
+						r.Violate("C17|statickey-length|many-options["+on+"]", fmt.Sprintf("%d options in %s wire order: StaticKey() fails for a stored 32-byte value: %v", len(o), on, e), core.Case{Kind: "keylen", Args: map[string]string{"n": "32", "parser": "true"}})
+					}
+					if _, e := ra.InitializationVector(); e != nil {
+						r.Violate("C17|iv-length|many-options["+on+"]", fmt.Sprintf("%d options in %s wire order: InitializationVector() fails for a stored 16-byte value: %v", len(o), on, e), core.Case{Kind: "keylen", Args: map[string]string{"n": "16", "parser": "true"}})
+					}
+				}
+			}
+		}
+		c17WireOrder = nil
+	}
 	// caps-derived version only when the host gives none
 	for _, caps := range c17Caps {
 		o := map[string]string{}
